@@ -86,11 +86,17 @@ chk("C08", "sysmc", "model_checking",
     SYS_NOTE + " The jail's own /proc mount plays the role of the host's /proc.",
     "exhaustive enumeration of a finite configuration space + deviation-bounded exploration of environment answers over the traced retry protocol", "DESIGN.md 4/C08")
 
+chk("C06", "treemc+sysmc", "model_checking",
+    "Static half: every single (thorough: every pair of) over-mount(s) of the over-mountable procfs entries x over-mount kinds, for seven handle kinds (private fsopen, global handle via the C API, open_tree clone taken before/after the mount, plain open before/after, user-supplied fd) x both procfs resolvers x open/readlink/open_follow lookups across the three bases; oracle: the same handle kind's answers without over-mounts, the identities of the over-mount sources and the traversal set of every lookup (visible over-mount on the way => EXDEV, otherwise the pristine answer; private handles always pristine). Racing half: one mount/umount (thorough: two) of each kind is applied before every procfs syscall of non-following lookups under ptrace; a success must be a genuine procfs object, private handles must not be affected at all.",
+    "Mounts happen in the shard's private mount namespace on the jail's /proc; Linux 6.18 (refuses mounts on /proc/<pid>/fd/<n>, reports STATX_MNT_ID); no-openat2 / no-new-mount-API by seccomp ENOSYS.",
+    "exhaustive enumeration of mount layouts with a pristine-instance oracle + deviation-bounded exhaustive placement of racing mounts under a ptrace-controlled scheduler", "DESIGN.md 4/C06")
+
 not_applicable = [
     {"property_id": "C18", "reason": "relates static artefacts (exported symbols, header, Go/Python binding declarations); there is no behaviour, schedule or state space to enumerate - deciding it is translation validation / static comparison, a different family (DESIGN.md section 5)"},
 ]
 import sys
 todo = {f"C{i:02d}" for i in range(1, 18)} - set(checks)
+assert not todo, todo
 for pid in sorted(todo):
     not_applicable.append({"property_id": pid, "reason": "check not built yet in this snapshot of /verif (planned, see DESIGN.md); not claimed until its check exists"})
 manifest = {
